@@ -384,10 +384,74 @@ def enumeration_case(case):
     return {"nontrivial": True, "labels": [what]}
 
 
+# ---- converse: instances of SUBCLASSES of the documented types are valid values ----------------------------------------------
+class S(str):
+    pass
+
+
+class I(int):
+    pass
+
+
+class F(float):
+    pass
+
+
+class L(list):
+    pass
+
+
+class SetSub(set):
+    pass
+
+
+def subclassed(value):
+    import collections
+    if isinstance(value, bool) or value is None:
+        return value
+    if isinstance(value, str):
+        return S(value)
+    if isinstance(value, int):
+        return I(value)
+    if isinstance(value, float):
+        return F(value)
+    if isinstance(value, dict):
+        return collections.OrderedDict((k, v) for k, v in value.items())
+    if isinstance(value, list):
+        return L(value)
+    if isinstance(value, set):
+        return SetSub(value)
+    return value
+
+
+SKIP_ATTRS = ("_metadata", "parent", "_variant", "_section", "_fields", "variants", "images", "header", "compose", "release", "base_product", "tree", "checksums",
+              "stage2", "media", "paths", "rpms", "modules", "extra_files", "metadata_type")
+
+
+def subclass_case(case):
+    fmt = case["format"]
+    plain = must("build-valid-object", build, fmt, rich(fmt))
+    want = must("valid-object-refused", plain.dumps)
+    obj = must("build-valid-object", build, fmt, rich(fmt))
+    changed = 0
+    for path, inst in reachable(obj):
+        for name, value in list(vars(inst).items()):
+            if name in SKIP_ATTRS and not (type(inst).__name__ == "Image" and name == "checksums"):
+                continue
+            new = subclassed(value)
+            if new is not value:
+                setattr(inst, name, new)
+                changed += 1
+    got = must("valid-object-with-subclass-instances-refused[%s]" % fmt, obj.dumps)
+    check(got == want, "subclass-instances-change-output", "%s: output differs when fields hold instances of str/int/dict/list/set subclasses" % fmt)
+    return {"nontrivial": changed > 0, "labels": [fmt, "fields:%d" % changed]}
+
+
 def run(ctx):
+    ctx.sweep("subclass-instances", [{"format": f} for f in FORMATS], subclass_case, exhaustive=True, stop_after=7)
     ctx.forall("corruption", case_strategy, corruption_case, ctx.n(2400, 64000))
     ctx.sweep("table-sweep", table_cases(), table_case, exhaustive=True, stop_after=5)
     ctx.sweep("enumerations", enumeration_cases(), enumeration_case, exhaustive=True, stop_after=5)
 
 
-REPLAY = {"corruption": corruption_case, "table-sweep": table_case, "enumerations": enumeration_case}
+REPLAY = {"corruption": corruption_case, "table-sweep": table_case, "enumerations": enumeration_case, "subclass-instances": subclass_case}
